@@ -93,7 +93,8 @@ def kink_symbols(M):
         for a in all_atoms(p):
             if a.kind in ("fabs", "sign") and isinstance(a.key[0], Poly):
                 sa = a.key[0].signed_atom()
-                if sa is not None and sa[1].kind == "sym" and sa[1] not in out:
+                # sign-indefinite atoms only: a case 'atom < 0' must be non-empty for a difference found in it to count
+                if sa is not None and sa[1].kind in ("sym", "sin", "cos", "tan", "asin", "atan") and sa[1] not in out:
                     out.append(sa[1])
     return out
 
